@@ -7,8 +7,9 @@ M2  histories dumped by TLC (exhaustive for 4 operations; sampled by seed for re
     GeophiresXClient objects in one process each, with inputs from different configuration families.
 M3  the recorded histories are validated by TraceClient.tla (restore, freshness against a stand-alone reference run of
     the same content, purity of the outcome); cross-run contamination histories (family A then B then A, default-relying
-    inputs after explicit ones) and hash-seed / working-directory independence through sub-processes are validated by
-    TraceHistory.tla.
+    inputs after explicit ones, each analytical reservoir model after each other one, one-figure neighbours after their base, and
+    runs made to fail at seeded crash points inside the modules' Calculate followed by a reference input) and hash-seed /
+    working-directory independence through sub-processes are validated by TraceHistory.tla (C08_pure, C08_restore).
 """
 from __future__ import annotations
 
@@ -134,7 +135,7 @@ def side_effects(item):
     """Worker: for every numeric / option parameter of one family, the OTHER parameters whose value changes when it alone is added
     to the base input (the real Model() + read_parameters)."""
     from .c07 import build, declared, params_of
-    fam, base = item
+    fam, base, part, nparts = item
     try:
         m0 = build(base)
     except BaseException:  # noqa: BLE001
@@ -149,6 +150,8 @@ def side_effects(item):
         if d is None or name in seen:
             continue
         seen.add(name)
+        if (len(seen) - 1) % nparts != part:      # (one family's parameters are shared out over `nparts` processes)
+            continue
         if d['kind'] == 'int':
             alts = [a for a in sorted(set(d['allow'])) if str(a) != str(d['cur']).split('/')[0]][:3]
         else:
@@ -177,7 +180,7 @@ def cross_pairs(bases: list, cap: int) -> list:
     if cf.exists():
         found = json.loads(cf.read_text())
     else:
-        found = [e for lst in sim.call_in_pool('harness.c08:side_effects', bases) for e in lst]
+        found = [e for lst in sim.call_in_pool('harness.c08:side_effects', [(f, b, k, 3) for f, b in bases for k in range(3)]) for e in lst]
         CACHE.mkdir(exist_ok=True)
         cf.write_text(json.dumps(found))
     by_fam = {}
@@ -313,7 +316,7 @@ def crash_history(item):
     """Worker: in ONE process: input A; input B recorded (which lines of the modules' `Calculate` bodies it executes); then, for a
     seeded choice of those lines, B again with a failure raised when the line is first reached, followed by A again.  The failed
     run must leave nothing behind: A's result, the working directory and the argument vector are as before."""
-    tag, (ida, ta), (idb, tb), npoints, rseed = item
+    tag, (ida, ta), (idb, tb), npoints, rseed, part, nparts = item
     bind_repo()
     from geophires_x_client import GeophiresXClient
     from geophires_x_client.geophires_input_parameters import GeophiresInputParameters
@@ -371,6 +374,8 @@ def crash_history(item):
         return tracer, hit
 
     out = {'tag': tag, 'events': [], 'crashes': []}
+    import time
+    t0 = time.time()
     try:
         out['events'].append({'input': ida, 'digest': request(ta), 'how': f'{tag}#first'})
         sys.settrace(recorder)
@@ -387,6 +392,7 @@ def crash_history(item):
         rest = [k for k in order if k not in points]
         rng.shuffle(rest)
         points = (points + rest)[:max(npoints, len(points))]      # ... all of them, filled up to npoints with further lines
+        points = points[part::nparts]                             # (the points of one history are shared out over `nparts` processes)
         out['lines_seen'] = len(order)
         for pt in points:
             tracer, hit = injector_for(pt)
@@ -399,6 +405,8 @@ def crash_history(item):
             where = f'{os.path.basename(pt[0])}:{pt[1]}'
             out['crashes'].append({'at': where, 'reached': hit[0], 'outcome': 'failed' if got.startswith('failed') else 'completed',
                                    'cwd_same': os.getcwd() == c0, 'argv_same': sys.argv == home_argv, 'input': idb})
+            out['events'].append({'input': f'{idb}!failure at {where}', 'digest': got.split(':')[0], 'how': f'{tag}#failure raised at {where}',
+                                  'restored': os.getcwd() == c0 and sys.argv == home_argv})
             if os.getcwd() != c0:
                 os.chdir(c0)
             if sys.argv != home_argv:
@@ -410,6 +418,8 @@ def crash_history(item):
         sys.argv = argv0
         logging.disable(logging.NOTSET)
         shutil.rmtree(root, ignore_errors=True)
+    out['seconds'] = round(time.time() - t0, 1)
+    out['pair'] = f'{ida} / {idb}'
     return out
 
 
@@ -431,7 +441,14 @@ def cli_run(item):
 
 
 def run(tier: str, only_key: dict | None = None) -> int:
+    import time
     res = Result('C08', tier)
+    t_last, phases = [time.time()], {}
+
+    def lap(name):
+        now = time.time()
+        phases[name] = round(phases.get(name, 0) + now - t_last[0], 1)
+        t_last[0] = now
     r = tlc.run_tlc('Client', 'MC_Client.cfg', workers=16, timeout=2400)
     tlc.check_mc(r, 'MC_Client.cfg', ['CacheHit', 'RunOk', 'RunFail', 'Rewrite', 'Chdir'])
     if r['violated']:
@@ -459,6 +476,7 @@ def run(tier: str, only_key: dict | None = None) -> int:
     n = 110 if tier == 'quick' else 1600
     chosen = pool[: int(n * 0.8)] + rest[: n - int(n * 0.8)]
     fams = families(rng)
+    lap('model checking + history dump')
     refs = reference_digests(fams)
     items = []
     for k, h in enumerate(chosen):
@@ -466,12 +484,14 @@ def run(tier: str, only_key: dict | None = None) -> int:
         files0 = {'a': rng.choice(['v1', 'v2', 'bad']), 'b': rng.choice(['v1', 'v2'])}
         items.append(({'files0': files0, 'cwd0': h['start']['cwd'] if h['start']['cwd'] in ('d1', 'd2') else 'd1', 'ops': h['ops']},
                       fams[k % len(fams)]))
+    lap('reference runs')
     recs = sim.call_in_pool('harness.c08:replay_history', items)
     traces = []
     for k, rec in enumerate(recs):
         fam = rec['family']
         traces.append({'tid': k + 1, 'files0': rec['files0'], 'cwd0': rec['cwd0'], 'events': rec['events'], 'bad': rec['bad'],
                        'refs': {'v1': refs[f'{fam}|v1'], 'v2': refs[f'{fam}|v2']}, 'family': fam})
+    lap('client histories')
     verdicts, ds, gs = tlc.validate_traces('TraceClient', 'TraceClient.cfg', traces)
     res.states += ds
     res.transitions += gs
@@ -522,26 +542,27 @@ def run(tier: str, only_key: dict | None = None) -> int:
             texts[nid] = ntext
             seqs.append((f'alone:{nid}', [(nid, ntext)]))
             seqs.append((f'after:{nid}', [(ident, texts[ident]), (nid, ntext)]))
+    lap('TraceClient + neighbours')
     seq_out = sim.call_in_pool('harness.c08:sequence_history', seqs)
     # ---- failed runs at every crash point: a failure raised at a seeded choice of lines of the modules' Calculate bodies
     pairs = [(a, b) for a, b in (('example1|v1', 'example2|v1'), ('example2|v1', 'example1|v1'), ('example1|v1', 'example3|v1'),
                                  ('example3|v1', 'grid-eu2-pt9|v1'), ('example2|v1', 'example12_DH|v1'), ('example1|v1', 'example_overpressure|v1'),
                                  ('example3|v1', 'S-DAC-GT|v1'), ('example2|v1', 'Fervo_Project_Cape-3|v1')) if a in texts and b in texts]
+    if tier == 'quick':      # (long runs under the line tracer: thorough tier only; they reach no module the others do not)
+        pairs = [q for q in pairs if q[1] not in ('example_overpressure|v1', 'Fervo_Project_Cape-3|v1')]
     crash_items = []
     for k in range(len(pairs) if tier == 'quick' else 4 * len(pairs)):
         a, b = pairs[k % len(pairs)]
-        crash_items.append((f'crash{k}', (a, texts[a]), (b, texts[b]), 6 if tier == 'quick' else 12, seed() * 1000 + k))
+        for part in (0, 1):
+            crash_items.append((f'crash{k}.{part}', (a, texts[a]), (b, texts[b]), 6 if tier == 'quick' else 12, seed() * 1000 + k, part, 2))
+    lap('sequences')
     crash_out = sim.call_in_pool('harness.c08:crash_history', crash_items)
     crash_events = [e for c in crash_out for e in c['events']]
     for c in crash_out:
         for cr in c['crashes']:
             counts['crash_points_' + cr['outcome']] = counts.get('crash_points_' + cr['outcome'], 0) + 1
             res.case(f"{c['tag']}@{cr['at']}")
-            if not (cr['cwd_same'] and cr['argv_same']):
-                res.violation({'clause': 'C08_restore', 'family': cr['input'], 'ops': ['crash', cr['at'].split(':')[0]]},
-                              f"C08_restore: a run of {cr['input']} that failed at {cr['at']} left cwd_same={cr['cwd_same']} argv_same={cr['argv_same']}",
-                              {'crash': cr, 'input_text': texts.get(cr['input'])})
-    res.cov['crash_points'] = {'histories': len(crash_out), 'calculate_lines_seen': sum(c.get('lines_seen', 0) for c in crash_out),
+    res.cov['crash_points'] = {'histories': len(crash_out), 'seconds': {c['tag']: [c['pair'], c['seconds'], len(c['crashes'])] for c in crash_out}, 'calculate_lines_seen': sum(c.get('lines_seen', 0) for c in crash_out),
                                'sample': [c['crashes'][:3] for c in crash_out[:2]]}
     cli_items = []
     for ident in idents[: (6 if tier == 'quick' else len(idents))]:
@@ -553,6 +574,7 @@ def run(tier: str, only_key: dict | None = None) -> int:
     xb = [(f, ex[n]) for f, n in C07_FAMILIES.items() if n in ex and f in ('standard', 'sbt', 'addons', 'district_heating', 'heatpump', 'overpressure')]
     if 'Fervo_Norbeck_Latimer_2023' in ex:
         xb.append(('fervo', ex['Fervo_Norbeck_Latimer_2023']))     # multilateral wells: the well-geometry options matter here
+    lap('crash points')
     xpairs = cross_pairs(xb, 12 if tier == 'quick' else 60)
     if tier == 'quick':
         xpairs = [q for q in xpairs if q['family'] != 'sbt']      # an SBT run takes minutes: thorough tier only
@@ -562,9 +584,11 @@ def run(tier: str, only_key: dict | None = None) -> int:
         texts[ident] = q['text']
         for hs in (('0', '1', '2', '3') if tier == 'quick' else ('0', '1', '2', '3', '4', '5', '12345')):
             cli_items.append((ident, q['text'], hs, 'sub'))
+    lap('pair discovery')
     cli_out = sim.call_in_pool('harness.c08:cli_run', cli_items)
     events = [e for s in seq_out for e in s] + cli_out + crash_events
     htrace = [{'tid': 1, 'clause': 'C08_pure', 'events': events}]
+    lap('cli runs')
     hv, ds, gs = tlc.validate_traces('TraceHistory', 'TraceHistory.cfg', htrace, shards=1)
     res.states += ds
     res.transitions += gs
@@ -572,10 +596,15 @@ def run(tier: str, only_key: dict | None = None) -> int:
     for e in events:
         res.case(e['how'])
     for w in hv[1]['w']:
+        if w.get('clause') == 'C08_restore':       # a run that failed at a crash point left the caller's directory or argument vector changed
+            res.violation({'clause': 'C08_restore', 'input': w['input']}, f"C08_restore: {w['how']}: working directory / argument vector not as before",
+                          {'input_text': texts.get(w['input'].split('!')[0]), 'witness': w})
         if w.get('clause') == 'C08_pure':
             res.violation({'clause': 'C08_pure', 'input': w['input']},
                           f"same input {w['input']} gave different results: first seen in {w['first']}, differs in {w['differs']}",
                           {'input_text': texts.get(w['input']), 'witness': w})
+    lap('TraceHistory')
+    res.cov['phase_seconds'] = phases
     counts['C08_pure_runs'] = len(events)
     counts['C08_pure'] = len([1 for c in hv[1]['e'] if c == 'C08_pure'])
     res.cov['clauses_and_outcomes'] = counts
@@ -587,7 +616,7 @@ def run(tier: str, only_key: dict | None = None) -> int:
     res.cov['rule'] = ('M1: all histories of <= 5 operations; M2/M3: TLC histories of 4 operations sampled by seed (80 % with a rewrite and '
                        '>= 2 requests) over 9 input families; contamination sequences and CLI sub-processes under 3 hash seeds x 2 start '
                        'directories; failed runs at seeded crash points (a failure raised at a line of a module\'s Calculate; one point per module '
-                       'reached, quick 8 x 6, thorough 32 x 12) each followed by a reference input; distinct = history / run identity')
+                       'reached, quick 6 histories, thorough 32) each followed by a reference input; one-figure neighbours of 5 bases; distinct = history / run identity')
     res.assumptions += ['results compared as report text without date/time lines',
                         'the reference result of a content version is its run in a history of length one']
     if only_key is not None:
